@@ -250,6 +250,36 @@ func classifyPanicSite(w *World, fn *ssa.Function, in ssa.Instruction, groups ma
 					return "map-value-deref", "GM2", "dereferenced under value != nil"
 				}
 			}
+			// a (value, ok) pair merged edge by edge: the pointer is nil only where ok is false, comes from a comma-ok
+			// lookup exactly where ok is that lookup's ok, and is dereferenced under ok
+			for _, f := range factsAt(x.Block()) {
+				bphi, isB := f.X.(*ssa.Phi)
+				if f.Op != token.ILLEGAL || !f.Truth || !isB || bphi.Block() != phi.Block() || len(bphi.Edges) != len(phi.Edges) {
+					continue
+				}
+				paired := true
+				for i, e := range phi.Edges {
+					be := bphi.Edges[i]
+					if isNilConst(e) {
+						if c, ok := be.(*ssa.Const); !ok || c.Value == nil || c.Value.String() != "false" {
+							paired = false
+						}
+						continue
+					}
+					ev, ok1 := e.(*ssa.Extract)
+					bv, ok2 := be.(*ssa.Extract)
+					if !ok1 || !ok2 || ev.Tuple != bv.Tuple || ev.Index != 0 || bv.Index != 1 {
+						paired = false
+						continue
+					}
+					if lk, ok := ev.Tuple.(*ssa.Lookup); !ok || !lk.CommaOk {
+						paired = false
+					}
+				}
+				if paired {
+					return "map-value-deref", "GM1", "value and ok of a comma-ok lookup merged pairwise (nil with false): dereferenced under ok"
+				}
+			}
 			n, bad := lookupEdges(phi, map[*ssa.Phi]bool{})
 			// a local that starts as nil and is set inside a loop (`var last *T; for … { last = x }; last.f`)
 			hasNil := false
@@ -614,6 +644,49 @@ func classifyIndex(w *World, fn *ssa.Function, in ssa.Instruction, coll, idx ssa
 					if c2, ok := lenOf(mk.Len); ok && sameColl(c2, c) {
 						return kind, "G1", "counter of a `range len(c)` loop indexing a slice made with make([]T, len(c))"
 					}
+				}
+			}
+		}
+	}
+	// G1d: a down-counter: n-k (k >= 1) on entry, counter-k' (k' >= 1) on the back edges, used under counter >= 0,
+	// where n is the length the indexed slice was made with (or the len of the indexed collection)
+	if phi, ok := idx.(*ssa.Phi); ok {
+		h := phi.Block()
+		good := len(phi.Edges) >= 2
+		for i, e := range phi.Edges {
+			b2, ok := e.(*ssa.BinOp)
+			k := int64(0)
+			if ok {
+				k, _ = constInt(b2.Y)
+			}
+			if !ok || b2.Op != token.SUB || k < 1 {
+				good = false
+				break
+			}
+			if h.Dominates(h.Preds[i]) {
+				if b2.X != ssa.Value(phi) {
+					good = false
+				}
+				continue
+			}
+			isLen := false
+			if mk, ok := coll.(*ssa.MakeSlice); ok && (mk.Len == b2.X || sameVal(mk.Len, b2.X)) {
+				isLen = true
+			}
+			if c, ok := lenOf(b2.X); ok && sameColl(c, coll) {
+				isLen = true
+			}
+			if !isLen {
+				good = false
+			}
+		}
+		if good {
+			for _, f := range factsAt(b) {
+				if f.Y == nil || f.X != idx {
+					continue
+				}
+				if k, ok := constInt(f.Y); ok && (f.Op == token.GEQ && k >= 0 || f.Op == token.GTR && k >= -1) {
+					return kind, "G1", "down-counter starting below the length and used only while it is not negative"
 				}
 			}
 		}
@@ -1051,6 +1124,35 @@ func classifySlice(w *World, fn *ssa.Function, x *ssa.Slice, nonEmpty map[*ssa.G
 	if x.Low == nil && x.High == nil {
 		return kind, "G0", "full slice expression"
 	}
+	// constant bounds within a fixed-size array that was just allocated (make([]T, k, n) with constants)
+	if n, ok := arrayLenOfPtr(x.X.Type()); ok && x.Max == nil {
+		if _, fresh := x.X.(*ssa.Alloc); fresh {
+			lo, hi := int64(0), n
+			okB := true
+			if x.Low != nil {
+				lo, okB = constInt(x.Low)
+			}
+			if x.High != nil && okB {
+				hi, okB = constInt(x.High)
+			}
+			if okB && 0 <= lo && lo <= hi && hi <= n {
+				return kind, "G0", "constant bounds within a freshly allocated fixed-size array"
+			}
+		}
+	}
+	// x[:0] of a slice or string: 0 <= 0 <= cap holds for every value, nil included
+	if x.Max == nil && x.High != nil {
+		lowZero := x.Low == nil
+		if k, ok := constInt(x.Low); x.Low != nil && ok && k == 0 {
+			lowZero = true
+		}
+		if k, ok := constInt(x.High); ok && k == 0 && lowZero {
+			switch x.X.Type().Underlying().(type) {
+			case *types.Slice, *types.Basic:
+				return kind, "G0", "x[:0]: the empty prefix exists for every slice"
+			}
+		}
+	}
 	b := x.Block()
 	// x[:len(x)-k]
 	if x.Low == nil && x.High != nil {
@@ -1256,6 +1358,27 @@ func classifyLoop(w *World, fn *ssa.Function, h *ssa.BasicBlock) (kind string, o
 					}
 				}
 				boundInv := loopInvariant(bo.Y, loop)
+				// a down-counter against a constant lower bound
+				if !step && (bo.Op == token.GEQ || bo.Op == token.GTR) {
+					if _, isC := constInt(bo.Y); isC {
+						down := true
+						for i, e := range phi.Edges {
+							if h.Dominates(h.Preds[i]) {
+								b2, ok := e.(*ssa.BinOp)
+								k := int64(0)
+								if ok {
+									k, _ = constInt(b2.Y)
+								}
+								if !ok || b2.Op != token.SUB || b2.X != ssa.Value(phi) || k < 1 {
+									down = false
+								}
+							}
+						}
+						if down {
+							return "counter", true, "strictly decreasing counter with a constant lower bound"
+						}
+					}
+				}
 				switch {
 				case !step:
 					return "counter", false, "the counter does not increase on every cycle"
